@@ -47,7 +47,9 @@ class Mono:
         if isinstance(v, bool):
             return None
         try:
-            fr = Fraction(v).limit_denominator(10**9) if isinstance(v, float) else Fraction(v)
+            fr = Fraction(repr(v)) if isinstance(v, float) else Fraction(v)
+            if fr.denominator > 10**30 or fr.numerator > 10**30:
+                fr = Fraction(v).limit_denominator(10**9)
         except Exception:
             return None
         if fr == 0:
